@@ -41,6 +41,7 @@ Definition vdot (a b : vec) : float := v0 a * v0 b + v1 a * v1 b + v2 a * v2 b.
 Definition vcross (a b : vec) : vec :=
   (v1 a * v2 b - v2 a * v1 b, v2 a * v0 b - v0 a * v2 b, v0 a * v1 b - v1 a * v0 b).
 Definition vnorm (a : vec) : float := PrimFloat.sqrt (vdot a a).
+Definition vnorm_xy (a : vec) := PrimFloat.sqrt (v0 a * v0 a + v1 a * v1 a).
 Definition vmod (a b : vec) : vec := (nmod (v0 a) (v0 b), nmod (v1 a) (v1 b), nmod (v2 a) (v2 b)).
 Definition vabs (a : vec) : vec := (nabs (v0 a), nabs (v1 a), nabs (v2 a)).
 Definition vminc (a b : vec) : vec := (nmin (v0 a) (v0 b), nmin (v1 a) (v1 b), nmin (v2 a) (v2 b)).
